@@ -12,7 +12,7 @@ from .. import build, sp
 ID = "C17"
 META = {
     "technique": "runtime monitoring: permutation/stability/last-wins/idempotence postconditions on the real SortFieldsAlphabetically/SortFieldsCustom/NormalizeFieldKeys transforms over an exhaustive colliding-key space",
-    "level_text": "Every entry with 0-5 fields over keys {a,A,b,B,ab} (all collision patterns) is transformed by the three real middlewares - the custom sorter with every order list that is a sub-permutation of {a,A,b,ab,zz} of length <= 3 in both case modes, both in-place modes - and the result is compared with models written from the statement; other blocks, entry type/key and all values must be untouched and a second application must change nothing.",
+    "level_text": "Every entry with 0-5 fields over keys {a,A,b,B,ab} (all collision patterns) is transformed by the three real middlewares - the custom sorter with every order list that is a sub-permutation of {a,A,b,ab,zz} of length <= 3 in both case modes, both in-place modes - and the result is compared with models written from the statement; other blocks, entry type/key and all values must be untouched and a second application must change nothing. Every fourth field value is falsy or blank ('', 0, '0', ' ', 0.0, False, '{}').",
     "level_note": "alphabetical order = Python string order of the keys (the repository sorts by key)",
 }
 RULE = ("case = (field-key sequence over {a,A,b,B,ab}, middleware spec); all key sequences of length 0..5 (random 6..8 in thorough) x "
@@ -120,6 +120,17 @@ def model(spec, pairs):
     return [pairs[i] for i in idx]
 
 
+FALSY = ["", 0, "0", " ", 0.0, False, "{}"]
+
+
+def value_for(i, k, n):
+    """Opaque values: mostly unique tokens, every few fields a falsy / blank one ('the value of the last occurrence' also
+    when that value is empty; seed C17-k)."""
+    if (i * 3 + n) % 4 == 0:
+        return FALSY[(i + n) % len(FALSY)]
+    return "{Val %d of %s}" % (i, k.upper())
+
+
 LINES = [7, 3, None, 5, 1, None, 9, 2]
 
 
@@ -134,7 +145,7 @@ def check_pipe(case, ctx):
     """The entry passes through several of the middlewares in a row (re-used instances, in place and in copy
     mode); after every step the fields must equal the model folded over the steps so far."""
     keys, pipe = case["keys"], case["pipe"]
-    pairs = [(k, "{Val %d of %s}" % (i, k.upper())) for i, k in enumerate(keys)]
+    pairs = [(k, value_for(i, k, len(keys))) for i, k in enumerate(keys)]
     out = []
     for inplace in (False, True):
         lib = build.library([["entry", "Article", "TheKey", [list(p) for p in pairs], "raw text", 3], ["icomment", "c"]])
@@ -163,7 +174,7 @@ def check(case, ctx):
         return check_pipe(case, ctx)
     keys, spec = case["keys"], case["mw"]
     out = []
-    pairs = [(k, "{Val %d of %s}" % (i, k.upper())) for i, k in enumerate(keys)]
+    pairs = [(k, value_for(i, k, len(keys))) for i, k in enumerate(keys)]
     nontriv = len({k.lower() for k in keys}) < len(keys)
     for inplace in (False, True):
         if spec[0] == "custom":
@@ -197,7 +208,7 @@ def check(case, ctx):
         got = [(f.key, f.value) for f in e.fields]
         want = model(spec, pairs)
         if got != want:
-            if sorted(got) != sorted(want):
+            if sorted(got, key=repr) != sorted(want, key=repr):
                 why = "fields-lost-or-altered" if spec[0] != "norm" else "wrong-merge"
             else:
                 why = "order"
